@@ -635,6 +635,8 @@ type propDef struct {
 	enumerate func(h *Harness, report func(c any, f *Failure))
 	// setup runs once before anything else (e.g. to ask the child for its bind tables).
 	setup func(h *Harness)
+	// enumAllShards: the enumeration partitions itself over the shards.
+	enumAllShards bool
 }
 
 func runProp(t *testing.T, d propDef) {
@@ -710,10 +712,17 @@ func runProp(t *testing.T, d propDef) {
 
 	if envShard == "0" {
 		h.runRegress(d.check, func(raw json.RawMessage) *Failure { return decodeRun(raw, child()) })
+	}
 
+	if envShard == "0" || d.enumAllShards {
 		if d.enumerate != nil {
 			d.enumerate(h, func(c any, f *Failure) {
 				if f == nil {
+					return
+				}
+
+				if f.Clause == "discard" {
+					h.Discarded++
 					return
 				}
 
